@@ -94,6 +94,22 @@ def run(repo: Repo, rep: Report, tier: str) -> None:
     rkeys = {r.key for r in readers_in(fed, {"debug_info"})}
     for k in ("variable", "line", "source_file", "operation", "details"):
         rep.check(k in rkeys, "C20-R3", f"description reads debug_info['{k}']", "read" if k in rkeys else "key ignored by the formatter", fed.loc())
+    # the name is dropped from the label only when there is none: a literal placeholder is chosen under `not <variable>` alone
+    cfed = canon(fed)
+    VAR3 = "debug_info.get('variable', '')"
+    name_locals = {n.targets[0].id for n in walk_local(fed.node) if isinstance(n, ast.Assign) and isinstance(n.targets[0], ast.Name)
+                   and isinstance(n.value, ast.Name) and cfed.text(n.value) == VAR3}
+    lit_names = [n for n in walk_local(fed.node) if isinstance(n, ast.Assign) and isinstance(n.targets[0], ast.Name) and n.targets[0].id in name_locals
+                 and isinstance(n.value, ast.Constant) and isinstance(n.value.value, str)]
+    if not name_locals:
+        raise AnalysisError("C20-R3: the local holding the label's name part was not found in format_entity_description")
+    reads_var = any(VAR3 in a_ for n in walk_local(fed.node) if isinstance(n, ast.Expr) and isinstance(n.value, ast.Call) and call_name(n.value) == "append" and n.value.args for a_ in cfed.alts(n.value.args[0]))
+    rep.check(reads_var, "C20-R3", "the label's name part can be the variable itself", "an appended part has the alternative debug_info['variable']" if reads_var else "no appended part is the variable", fed.loc())
+    for n in lit_names:
+        gs3 = cguards(fed, n)
+        ok3 = any((not pol) and t == VAR3 for t, pol in gs3)
+        rep.check(ok3, "C20-R3", f"placeholder name {n.value.value!r} only when the node has no variable", "under `not variable`" if ok3 else
+                  f"chosen under {[('' if pol else 'not ') + t[:70] for t, pol in gs3]}: a result whose name the program chose (e.g. `const_speed`, `arith_mean`) is labelled {n.value.value!r}", fed.loc(n))
     bdi = repo.func("EntityPlacer._build_debug_info")
     cbdi = canon(bdi)
     dubd = DefUse(bdi)
